@@ -1,4 +1,5 @@
 import LhasaV.Lemmas.StreamProps
+import LhasaV.Lemmas.ToolKinds
 /-!
 # C16 — same members from file, pipe or callbacks, and after any self-extractor prefix
 
@@ -70,5 +71,47 @@ theorem kinds_agree (mk : Nat → Nat) (a b : Basic) (led : Ledger) (h : ObsEq a
 theorem kinds_agree_n (mk : Nat → Nat) (n : Nat) (a b : Basic) (led : Ledger) (h : ObsEq a b) (wf : WF a) :
     ResRel (fun r r' => ObsEq r.1 r'.1 ∧ r.2 = r'.2) (nextN mk n (a, led)) (nextN mk n (b, led)) :=
   Stream.nextN_kind_indep mk n a b led h wf
+
+/-! ## the tool
+
+`ToolKinds.runK k`, `printK k`, `mrunK cmd k`, `headersK k` are the tool models started on a source
+of kind `k` (`.seekable` = `lha … archive.lzh`, by `rfl` the existing `Extract.run`, `Extract.print`,
+`Messages.run`; a pipe = `lha … -`). `XAgree`: same result flag, abort flag, outcome tokens and the
+WHOLE file system (entries, clock, mutation log); `MAgree`: same stdout, stderr, exit status,
+verdict trace, file system. -/
+
+open ToolKinds Extract Messages in
+/-- **The same members from a file, a pipe or callbacks — for the whole tool.** Every archive,
+options, file system, answers, every kind of source: `lha x/e` end with the same flags and the same
+file system, `lha p` writes the same bytes, `lha t/x/e` write the same stdout and stderr and exit
+with the same status, the listing commands see the same headers. -/
+theorem tool_kind_independent (k : Stream.Kind) (archive : Array UInt8) (o : Opts) (fs : Fs.St)
+    (answers : Bytes) (cmd : Messages.Cmd) :
+    XAgree (runK k archive o fs answers) (Extract.run archive o fs answers) ∧
+    printK k archive o = Extract.print archive o ∧
+    MAgree (mrunK cmd k archive o fs answers) (Messages.run cmd archive o fs answers) ∧
+    headersK k archive = headersK .seekable archive :=
+  ToolKinds.tool_kind_independent k archive o fs answers cmd
+
+open ToolKinds Extract Messages in
+/-- **… and after a self-extractor prefix**: a prefix `P` without a signature or SFX marker
+(`prefix_transparent`'s hypothesis) that leaves the first header within the scan limit: every
+command on `P ++ A` from any kind of source behaves as on `A` from any other. -/
+theorem tool_prefix_transparent (k k' : Stream.Kind) (P A : Array UInt8)
+    (hclean : ∀ j, j < P.toList.length → ¬ sigAt (P.toList ++ A.toList) j ∧ ¬ markAt (P.toList ++ A.toList) j)
+    (hreach : FirstInReach P.toList A.toList)
+    (o : Opts) (fs : Fs.St) (answers : Bytes) (cmd : Messages.Cmd) :
+    XAgree (runK k (P ++ A) o fs answers) (runK k' A o fs answers) ∧
+    printK k (P ++ A) o = printK k' A o ∧
+    MAgree (mrunK cmd k (P ++ A) o fs answers) (mrunK cmd k' A o fs answers) ∧
+    headersK k (P ++ A) = headersK k' A :=
+  ToolKinds.tool_prefix_transparent_kinds k k' P A hclean hreach o fs answers cmd
+
+open ToolKinds in
+/-- every listing is the same, byte for byte -/
+theorem listing_kind_independent (k : Stream.Kind) (vl vo : Bool) (quiet now mtime : Nat) (filters : List Bytes)
+    (archive : Array UInt8) :
+    listingK k vl vo quiet now mtime filters archive = listingK .seekable vl vo quiet now mtime filters archive :=
+  ToolKinds.listing_kind_independent k vl vo quiet now mtime filters archive
 
 end LhasaV.Props.C16
